@@ -328,6 +328,23 @@ func report(prop, tier string, seed int, verifDir string, results []*FuncResult,
 		}
 		ev.Violations = n
 	}
+	// disk: the query of a discharged obligation is regenerated on every run; keep
+	// only the files the evidence points to (samples, slowest) and those of failed
+	// obligations (GOVC_KEEP_SMT=1 keeps everything, for debugging)
+	if os.Getenv("GOVC_KEEP_SMT") == "" {
+		keep := map[string]bool{}
+		for _, s := range samples {
+			keep[s.SMT] = true
+		}
+		for _, s := range slow {
+			keep[s.SMT] = true
+		}
+		for _, o := range all {
+			if o.Result != nil && o.Result.Status == "discharged" && o.Result.File != "" && !keep[o.Result.File] {
+				os.Remove(o.Result.File)
+			}
+		}
+	}
 	os.MkdirAll(filepath.Join(verifDir, "evidence"), 0o755)
 	data, _ := json.MarshalIndent(ev, "", " ")
 	os.WriteFile(filepath.Join(verifDir, "evidence", prop+".json"), append(data, '\n'), 0o644)
